@@ -11,6 +11,7 @@ reported; a warning names the entry unless it simply vanished (ENOENT).
 import os
 
 from .. import core, treegen
+from . import grp_common
 
 ERRNOS = {13: "EACCES", 5: "EIO", 2: "ENOENT"}
 
@@ -184,6 +185,10 @@ def run(ctx):
                               "%s of %s failed with %s and entries were left out without any warning naming it" % (call, ent.decode(), ERRNOS[eno]),
                               payload, found_input=True)
             ctx.sample({"entry": ent.decode(), "call": call, "nth": nth, "errno": ERRNOS[eno], "gone": sorted(p.decode() for p in gone)[:4]}, cap=8)
+
+    # model-level hook (engine G): failing every read of one inode in the extracted model, which Props_C15.v is about, gives
+    # the partition of the model and of the implementation on the tree without that inode
+    grp_common.model_fault_check(ctx, ctx.pick(40, 400))
 
 
 def expected_groups(all_groups, ids, cls_of, _unused, got_files, under):
